@@ -319,7 +319,7 @@ func (l *Lab) Run(operation string, variables []byte, opts *RunOptions) *Result 
 	func() {
 		defer func() {
 			if p := recover(); p != nil {
-				res.Err = fmt.Errorf("panic in Execute: %v | %s", p, trunc(strings.Join(strings.Fields(string(debug.Stack())), " "), 900))
+				res.Err = fmt.Errorf("panic in Execute: %v | %s", p, trunc(strings.Join(strings.Fields(string(debug.Stack())), " "), 3000))
 			}
 		}()
 		res.Err = l.Engine.Execute(ctx, req, &writer, opts.ExecutionOptions...)
